@@ -711,6 +711,9 @@ func (h h1) Gen(prop, tier string, r *simrt.Rng) (any, simrt.Config) {
 	}
 	if c.SlowOutputNs == 0 && (prop == "C05" || prop == "C19") && r.Intn(6) == 0 {
 		c.SlowOutputNs = int64(simrt.Pick(r, 1, 20, 400))*int64(time.Millisecond) + 41
+		if prop == "C05" && r.Intn(5) == 0 {
+			c.SlowOutputNs = 1500*int64(time.Millisecond) + 41 // a terminal that blocks for longer than a progress period
+		}
 	}
 	if r.Intn(8) == 0 {
 		c.StartOffsetNs = r.Int63n(int64(48 * time.Hour))
